@@ -366,7 +366,7 @@ class XsdWildcard(XsdComponent):
             else:
                 self.not_namespace = other.not_namespace.copy()
                 self.not_namespace.add('')
-                self.not_namespace.add(other.target_namespace)
+                self.not_namespace.add(self.target_namespace)
                 self.namespace.clear()
             return
 
@@ -380,7 +380,7 @@ class XsdWildcard(XsdComponent):
         elif '##other' in self.namespace:
             self.namespace.clear()
             self.namespace.update(other.namespace)
-            self.namespace.discard(other.target_namespace)
+            self.namespace.discard(self.target_namespace)
             self.namespace.discard('')
         elif '##other' not in other.namespace:
             self.namespace.intersection_update(other.namespace)
